@@ -139,7 +139,7 @@ class EventDataframeDataReader(AbstractDataframeDataReader):
             raise LeaspyDataInputError(
                 "There must be only an unique event_time and an unique event_bool per patient"
             )
-        df_event = df_event.groupby("ID").first()
+        df_event = df_event.groupby("ID", sort=False).first()
 
         # Event must be empty to raise an error
         if len(df_event) == 0:
